@@ -210,6 +210,9 @@ enum Op {
     Merge,
     SortNew,
     Write,
+    /// an element that is already placed is removed with swap_remove_idx: the last element of the
+    /// list (possibly a new one) takes its position in the list
+    RemovePlaced,
 }
 
 fn history(rng: &mut Rng, rec: &mut Recorder, len: usize, size: usize, label: &str) {
@@ -266,6 +269,7 @@ fn history(rng: &mut Rng, rec: &mut Recorder, len: usize, size: usize, label: &s
             4 if tm == 0 => Op::Merge,
             4 => Op::Push,
             5..=7 => Op::SortNew,
+            8 if !fresh.is_empty() && rng.coin() => Op::RemovePlaced,
             _ => Op::Write,
         };
         rec.eval();
@@ -333,6 +337,41 @@ fn history(rng: &mut Rng, rec: &mut Recorder, len: usize, size: usize, label: &s
                     return;
                 }
                 fresh.extend(before);
+            }
+            Op::RemovePlaced => {
+                // of the kind of the most recent new element, if a placed one exists
+                let kind = fresh.last().map(|k| k.0.clone()).unwrap_or_default();
+                let md = &mut a.project.module[tm];
+                macro_rules! remove_one {
+                    ($list:expr, $kind:expr) => {{
+                        let cands: Vec<usize> = (0..$list.len())
+                            .filter(|i| placed.iter().any(|k| k.0 == $kind && k.1 == $list[*i].get_name()))
+                            .collect();
+                        if let Some(i) = cands.first().copied() {
+                            let name = $list[i].get_name().to_string();
+                            $list.swap_remove_idx(i);
+                            Some(($kind.to_string(), name))
+                        } else {
+                            None
+                        }
+                    }};
+                }
+                let removed: Option<Key> = match kind.as_str() {
+                    "MEASUREMENT" => remove_one!(md.measurement, "MEASUREMENT"),
+                    "CHARACTERISTIC" => remove_one!(md.characteristic, "CHARACTERISTIC"),
+                    "COMPU_METHOD" => remove_one!(md.compu_method, "COMPU_METHOD"),
+                    "UNIT" => remove_one!(md.unit, "UNIT"),
+                    "GROUP" => remove_one!(md.group, "GROUP"),
+                    "FUNCTION" => remove_one!(md.function, "FUNCTION"),
+                    "RECORD_LAYOUT" => remove_one!(md.record_layout, "RECORD_LAYOUT"),
+                    "AXIS_PTS" => remove_one!(md.axis_pts, "AXIS_PTS"),
+                    _ => None,
+                };
+                if let Some(k) = removed {
+                    rec.bump("placed_element_removed_before_sort");
+                    placed.retain(|x| *x != k);
+                    end_placed.retain(|x| *x != k);
+                }
             }
             Op::SortNew => {
                 n_sort_calls += 1;
@@ -512,6 +551,7 @@ pub fn run(args: &Args, rec: &mut Recorder) {
         None
     });
     rec.floor("op.Push", 10);
+    rec.floor("placed_element_removed_before_sort", 10);
     rec.floor("histories_on_second_module", 5);
     rec.floor("merge.brings_if_data", 3);
     rec.floor("op.Merge", 5);
